@@ -129,4 +129,22 @@ def agfc (t : Coef) : Spec :=
     init := [],
     metrics := [agfcMetric t] }
 
+/-! ### specifications without a theorem attached (correspondence only): the script builds exactly this model -/
+
+/-- `unconstrained_convex_minimization.gradient_descent`: `x⋆ ↦ 0` (value leaf 0), `x0 ↦ 1`; `gradient(x_k)` creates `g_k ↦ 2+k` and
+`f_k` (value leaf `1+k`) for `k < n`, the final `func(x_n)` creates `g_n ↦ 2+n`, `f_n`; metric `f_n − f⋆` -/
+def gd (γ : Coef) (n : Nat) : Spec :=
+  { samples := ([(0, 1)], [], [(EKey.f 0, 1)]) ::
+      (List.range (n + 1)).map (fun k => (iterPt [(1, 1)] γ (fun i => 2 + i) k, [(2 + k, 1)], [(EKey.f (1 + k), 1)])),
+    init := [(EDict.subConst (PDict.sq (PDict.sub [(1, 1)] [(0, 1)])) 1, false)],
+    metrics := [EDict.sub [(EKey.f (1 + n), 1)] [(EKey.f 0, 1)]] }
+
+/-- `unconstrained_convex_minimization.proximal_point`: `x⋆ ↦ 0`, `x0 ↦ 1`; step `k` creates the subgradient `g_{k+1} ↦ 2+k` at the
+new point `x_{k+1} = x_k − γ g_{k+1}` and its value (leaf `1+k`); metric `f(x_n) − f⋆` -/
+def ppm (γ : Coef) (n : Nat) : Spec :=
+  { samples := ([(0, 1)], [], [(EKey.f 0, 1)]) ::
+      (List.range n).map (fun k => (iterPt [(1, 1)] γ (fun i => 2 + i) (k + 1), [(2 + k, 1)], [(EKey.f (1 + k), 1)])),
+    init := [(EDict.subConst (PDict.sq (PDict.sub [(1, 1)] [(0, 1)])) 1, false)],
+    metrics := [EDict.sub [(EKey.f n, 1)] [(EKey.f 0, 1)]] }
+
 end Pepit.Method
